@@ -295,26 +295,30 @@ Qed.
 
 (* ---------- argument parsing ---------- *)
 
-Lemma int_opt_raise (flag : char) (args : str) (e : exn) : int_opt flag args = Raise e -> e = ValueError.
-Proof. unfold int_opt. destruct (last_opt flag args); [discriminate|]. intros H. now inversion H. Qed.
-
-Lemma wrapper_nparses_raise (args : str) (e : exn) : wrapper_nparses args = Raise e -> e = ValueError.
+Lemma int_option_raise (flag : char) (toks : list str) (e : exn) :
+  int_option flag toks = Raise e -> e = ValueError.
 Proof.
-  unfold wrapper_nparses. intros H.
-  destruct (if has_flag ch_n args then int_opt ch_n args else Ok 2000%Z) as [n|e1] eqn:E1; cbn [bind] in H.
-  - destruct (if has_flag ch_x args then int_opt ch_x args else Ok 1%Z) as [x|e2] eqn:E2; cbn [bind] in H.
-    + destruct (x =? 0)%Z; [now inversion H|discriminate].
-    + inversion H; subst. destruct (has_flag ch_x args); [now apply int_opt_raise in E2|discriminate].
-  - inversion H; subst. destruct (has_flag ch_n args); [now apply int_opt_raise in E1|discriminate].
+  unfold int_option. destruct (opt_value flag toks None) as [v|]; [|discriminate].
+  destruct (all_digits v); [discriminate|]. intros H. now inversion H.
 Qed.
 
-Lemma effective_ignore_raise (args : str) (ignore : Z) (e : exn) :
-  effective_ignore args ignore = Raise e ->
-  (e = ValueError /\ wrapper_nparses args = Raise ValueError) \/
-  (e = RuntimeError /\ exists np : Z, wrapper_nparses args = Ok np).
+Lemma wrapper_nparses_raise (toks : list str) (e : exn) : wrapper_nparses toks = Raise e -> e = ValueError.
+Proof.
+  unfold wrapper_nparses. intros H.
+  destruct (int_option ch_n toks) as [on|e1] eqn:E1; cbn [bind] in H.
+  - destruct (int_option ch_x toks) as [ox|e2] eqn:E2; cbn [bind] in H.
+    + destruct (_ =? 0)%Z in H; [now inversion H|discriminate].
+    + inversion H; subst. now apply int_option_raise in E2.
+  - inversion H; subst. now apply int_option_raise in E1.
+Qed.
+
+Lemma effective_ignore_raise (toks : list str) (ignore : Z) (e : exn) :
+  effective_ignore toks ignore = Raise e ->
+  (e = ValueError /\ wrapper_nparses toks = Raise ValueError) \/
+  (e = RuntimeError /\ exists np : Z, wrapper_nparses toks = Ok np).
 Proof.
   unfold effective_ignore. intros H.
-  destruct (wrapper_nparses args) as [np|e'] eqn:E; cbn [bind] in H.
+  destruct (wrapper_nparses toks) as [np|e'] eqn:E; cbn [bind] in H.
   - right. destruct (_ <=? _)%Z in H; [|discriminate]. inversion H. split; [reflexivity|now exists np].
   - left. inversion H; subst. apply wrapper_nparses_raise in E. now subst.
 Qed.
@@ -322,9 +326,9 @@ Qed.
 (* ================================================================== *)
 (** * segment(), as a function of the runs' outputs *)
 
-Lemma segment_unfold (nutts : nat) (args : str) (ignore : Z) (runs : list (list str)) :
-  segment_from_outputs nutts args ignore runs =
-  (do ig <- effective_ignore args ignore; pc_most_common (run_all nutts ig runs (pc_init nutts))).
+Lemma segment_unfold (nutts : nat) (toks : list str) (ignore : Z) (runs : list (list str)) :
+  segment_from_outputs nutts toks ignore runs =
+  (do ig <- effective_ignore toks ignore; pc_most_common (run_all nutts ig runs (pc_init nutts))).
 Proof. reflexivity. Qed.
 
 Lemma pc_init_no_keys (nutts i : nat) (c : counter str) (k : str) :
@@ -336,18 +340,18 @@ Qed.
 
 (* The wrapper returns one line per utterance, and line i is the i-th line of a
    complete parse that one of the runs emitted (after the ignored ones). *)
-Theorem ag_wrapper_selects : forall (nutts : nat) (args : str) (ignore : Z)
+Theorem ag_wrapper_selects : forall (nutts : nat) (toks : list str) (ignore : Z)
     (runs : list (list str)) (out : list str),
-  segment_from_outputs nutts args ignore runs = Ok out ->
-  exists ig : Z, effective_ignore args ignore = Ok ig /\
+  segment_from_outputs nutts toks ignore runs = Ok out ->
+  exists ig : Z, effective_ignore toks ignore = Ok ig /\
   length out = nutts /\
   forall (i : nat) (k : str), nth_error out i = Some k ->
     exists (lines : list str) (tree : list str),
       In lines runs /\ In tree (yield_parses lines ig) /\ length tree = nutts /\
       nth_error tree i = Some k.
 Proof.
-  intros nutts args ignore runs out H. rewrite segment_unfold in H.
-  destruct (effective_ignore args ignore) as [ig|e] eqn:Eig; cbn [bind] in H; [|discriminate].
+  intros nutts toks ignore runs out H. rewrite segment_unfold in H.
+  destruct (effective_ignore toks ignore) as [ig|e] eqn:Eig; cbn [bind] in H; [|discriminate].
   exists ig. split; [reflexivity|].
   set (pc := run_all nutts ig runs (pc_init nutts)) in *.
   unfold pc_most_common in H. destruct (pc_nparses pc =? 0)%Z; [discriminate|].
@@ -365,14 +369,14 @@ Qed.
 
 (* ... hence the input with only spaces added, when every complete parse the
    program emits is a segmentation of the input *)
-Theorem ag_wrapper_preserves_units : forall (units : list (list str)) (args : str) (ignore : Z)
+Theorem ag_wrapper_preserves_units : forall (units : list (list str)) (toks : list str) (ignore : Z)
     (runs : list (list str)) (out : list str),
-  (forall ig : Z, effective_ignore args ignore = Ok ig ->
+  (forall ig : Z, effective_ignore toks ignore = Ok ig ->
    forall lines tree : list str, In lines runs -> In tree (yield_parses lines ig) ->
      length tree = length units -> parse_ok units tree) ->
-  segment_from_outputs (length units) args ignore runs = Ok out -> aligned units out.
+  segment_from_outputs (length units) toks ignore runs = Ok out -> aligned units out.
 Proof.
-  intros units args ignore runs out Hc H.
+  intros units toks ignore runs out Hc H.
   destruct (ag_wrapper_selects _ _ _ _ _ H) as (ig & Hig & Hlen & Hsel).
   apply Forall2_of_nth_error; [now symmetry|].
   intros i us k Hus Hk. destruct (Hsel i k Hk) as (lines & tree & Hl & Ht & Hlt & Hi).
@@ -381,34 +385,34 @@ Proof.
 Qed.
 
 (* never a fabricated result: without a counted parse the wrapper raises *)
-Theorem ag_no_count_raises : forall (nutts : nat) (args : str) (ignore ig : Z) (runs : list (list str)),
-  effective_ignore args ignore = Ok ig ->
+Theorem ag_no_count_raises : forall (nutts : nat) (toks : list str) (ignore ig : Z) (runs : list (list str)),
+  effective_ignore toks ignore = Ok ig ->
   pc_nparses (run_all nutts ig runs (pc_init nutts)) = 0%Z ->
-  segment_from_outputs nutts args ignore runs = Raise RuntimeError.
+  segment_from_outputs nutts toks ignore runs = Raise RuntimeError.
 Proof.
-  intros nutts args ignore ig runs Hig H0. rewrite segment_unfold, Hig. cbn [bind].
+  intros nutts toks ignore ig runs Hig H0. rewrite segment_unfold, Hig. cbn [bind].
   unfold pc_most_common. now rewrite H0.
 Qed.
 
-Theorem ag_no_parse_raises : forall (nutts : nat) (args : str) (ignore ig : Z) (runs : list (list str)),
-  effective_ignore args ignore = Ok ig ->
+Theorem ag_no_parse_raises : forall (nutts : nat) (toks : list str) (ignore ig : Z) (runs : list (list str)),
+  effective_ignore toks ignore = Ok ig ->
   (forall lines tree : list str, In lines runs -> In tree (yield_parses lines ig) ->
                                  length tree <> nutts) ->
-  segment_from_outputs nutts args ignore runs = Raise RuntimeError.
+  segment_from_outputs nutts toks ignore runs = Raise RuntimeError.
 Proof.
-  intros nutts args ignore ig runs Hig Hnone. apply (ag_no_count_raises nutts args ignore ig runs Hig).
+  intros nutts toks ignore ig runs Hig Hnone. apply (ag_no_count_raises nutts toks ignore ig runs Hig).
   rewrite run_all_none; [reflexivity|exact Hnone].
 Qed.
 
 (* the only exceptions: ValueError from the argument parsing, RuntimeError
    otherwise; the ValueError of min() on an empty counter is unreachable *)
-Theorem ag_wrapper_errors : forall (nutts : nat) (args : str) (ignore : Z)
+Theorem ag_wrapper_errors : forall (nutts : nat) (toks : list str) (ignore : Z)
     (runs : list (list str)) (e : exn),
-  segment_from_outputs nutts args ignore runs = Raise e ->
-  e = RuntimeError \/ (e = ValueError /\ wrapper_nparses args = Raise ValueError).
+  segment_from_outputs nutts toks ignore runs = Raise e ->
+  e = RuntimeError \/ (e = ValueError /\ wrapper_nparses toks = Raise ValueError).
 Proof.
-  intros nutts args ignore runs e H. rewrite segment_unfold in H.
-  destruct (effective_ignore args ignore) as [ig|e'] eqn:Eig; cbn [bind] in H.
+  intros nutts toks ignore runs e H. rewrite segment_unfold in H.
+  destruct (effective_ignore toks ignore) as [ig|e'] eqn:Eig; cbn [bind] in H.
   - left. set (pc := run_all nutts ig runs (pc_init nutts)) in *.
     unfold pc_most_common in H. destruct (Z.eqb_spec (pc_nparses pc) 0) as [E0|N0]; [now inversion H|].
     exfalso. apply mapM_raise in H. destruct H as (c & Hc & Hr).
